@@ -417,11 +417,14 @@ def gen_agg_lat_program(rng):
 def sp_program():
     """the README shortest-path shape: the lattice is read inside its own recursive stratum through a NON-KEY index (first key column bound only),
     and again by a later stratum:  sp(x,y,w) <-- edge(x,y,w);  sp(x,z,w+l) <-- edge(x,y,w), sp(y,z,l);  answer(s,n) <-- query(s), sp(s,n,_)"""
-    return {"rels": [{"arity": 3}, {"arity": 1}, {"arity": 3, "lat": "min"}, {"arity": 2}],
+    # ... and  cost(s, n, l) <-- query(s), sp(s, n, l)  (a lattice of a LATER stratum that reads the VALUES of sp: when a re-run improves an sp value in
+    # place, no relation of that stratum changes its size, yet the stratum has to be evaluated again)
+    return {"rels": [{"arity": 3}, {"arity": 1}, {"arity": 3, "lat": "min"}, {"arity": 2}, {"arity": 3, "lat": "min"}],
             "rules": [{"heads": [(2, [("var", 0), ("var", 1), ("var", 2)])], "body": [("cl", 0, [("v", 0), ("v", 1), ("v", 2)], [])]},
                       {"heads": [(2, [("var", 0), ("var", 3), ("add", ("var", 2), ("var", 4))])],
                        "body": [("cl", 0, [("v", 0), ("v", 1), ("v", 2)], []), ("cl", 2, [("v", 1), ("v", 3), ("v", 4)], [])]},
-                      {"heads": [(3, [("var", 0), ("var", 1)])], "body": [("cl", 1, [("v", 0)], []), ("cl", 2, [("v", 0), ("v", 1), ("v", 5)], [])]}]}
+                      {"heads": [(3, [("var", 0), ("var", 1)])], "body": [("cl", 1, [("v", 0)], []), ("cl", 2, [("v", 0), ("v", 1), ("v", 5)], [])]},
+                      {"heads": [(4, [("var", 0), ("var", 1), ("var", 5)])], "body": [("cl", 1, [("v", 0)], []), ("cl", 2, [("v", 0), ("v", 1), ("v", 5)], [])]}]}
 
 
 def sp_input(rng, n=None):
@@ -435,7 +438,7 @@ def sp_input(rng, n=None):
         a, b = rng.below(n), rng.below(n)
         if a != b and (a, b) not in edges: edges[(a, b)] = rng.range(2, 30)
     if rng.chance(1, 2): edges[(n - 1, 0)] = rng.range(1, 5)          # a cycle
-    return {0: [(a, b, w) for (a, b), w in sorted(edges.items())], 1: [(0,)] + ([(rng.below(n),)] if rng.chance(1, 2) else []), 2: [], 3: []}
+    return {0: [(a, b, w) for (a, b), w in sorted(edges.items())], 1: [(0,)] + ([(rng.below(n),)] if rng.chance(1, 2) else []), 2: [], 3: [], 4: []}
 
 
 def nodup_input(rng, p, max_rows=8):
